@@ -525,17 +525,39 @@ func (c *Client) completeCommand(cmd command, err error) {
 	}
 }
 
+// registerContReq registers a continuation request for a pending command.
+//
+// If the command has already been completed, nobody would cancel the
+// continuation request anymore: it's returned already cancelled.
 func (c *Client) registerContReq(cmd command) *imapwire.ContinuationRequest {
-	contReq := imapwire.NewContinuationRequest()
+	contReq, _ := c.tryRegisterContReq(cmd)
+	return contReq
+}
+
+// tryRegisterContReq is like registerContReq, but also reports whether the
+// command was still pending.
+func (c *Client) tryRegisterContReq(cmd command) (contReq *imapwire.ContinuationRequest, ok bool) {
+	contReq = imapwire.NewContinuationRequest()
 
 	c.mutex.Lock()
-	c.contReqs = append(c.contReqs, continuationRequest{
-		ContinuationRequest: contReq,
-		cmd:                 cmd.base(),
-	})
+	for _, pendingCmd := range c.pendingCmds {
+		if pendingCmd.base() == cmd.base() {
+			ok = true
+			break
+		}
+	}
+	if ok {
+		c.contReqs = append(c.contReqs, continuationRequest{
+			ContinuationRequest: contReq,
+			cmd:                 cmd.base(),
+		})
+	}
 	c.mutex.Unlock()
 
-	return contReq
+	if !ok {
+		contReq.Cancel(nil)
+	}
+	return contReq, ok
 }
 
 // closeWithError closes the connection and completes the pending commands
